@@ -16,7 +16,7 @@ sizeof(T) * 8 +- k lie inside.  This is a truth table of the extracted guard exp
 not bound v from above (the bound comes from somewhere else) are reported as info and not decided."""
 import re
 
-from ..core import Rule, AnalysisError
+from ..core import Rule
 from ..engine import cexpr
 from ..engine.cutil import strip_c_comments
 from ..engine.cguard import guards, function_at
